@@ -665,7 +665,7 @@ NBORROWED = {"quick": 700, "thorough": 14000}
 BORROW = [("c01", "make_cfg", ()), ("c01", "make_active_cfg", ()), ("c02", "make_cfg", ()), ("c03", "make_cfg", ("rand",)),
           ("c04", "make_cfg", ("rand",)), ("c04", "make_cfg", ("grow",)), ("c04", "make_cfg", ("perturb",)), ("c04", "make_cfg", ("nanregion",)),
           ("c08", "make_cfg", ()), ("c09", "make_cfg", ()), ("c10", "make_cfg", ("rand",)), ("c11", "make_cfg", ()), ("c18", "make_cfg", ()),
-          ("c19", "make_cfg", ()), ("c20", "make_cfg", ())]
+          ("c19", "make_cfg", ()), ("c20", "make_cfg", ()), ("c11", "make_cfg", ("soft-restarts-adding-points-under-averaging",))]
 
 
 def run_borrowed(case, res):
@@ -677,6 +677,9 @@ def run_borrowed(case, res):
     mod, fn, extra = BORROW[case["j"] % len(BORROW)]
     m = importlib.import_module("vf.props." + mod)
     idx = 100000 + case["j"] // len(BORROW)
+    if extra and extra[0] == "soft-restarts-adding-points-under-averaging":
+        # the one family of C11 (index = 7 mod 10) in which soft restarts ADD points while every point is sampled more than once
+        idx, extra = 10 * idx + 7, ()
     cfg = case.get("cfg") or getattr(m, fn)(case["seed"], idx, *extra)
     case["cfg"] = cfg
     run = gen.run_cfg(cfg, timeout=(150 if cfg.get("proj") else 90))
